@@ -127,6 +127,14 @@ def run_repeat(case):
         spec["options"]["debug"] = True
         spec["faults"] = [{"target": "obj", "val": "raise",
                            "when": {"idx": [int(rng.integers(0, 12))]}}]
+    elif rng.random() < 0.2 and spec.get("nl"):
+        # a constraint function that fails with its own exception at its
+        # first evaluation(s) (x0 outside its domain): the caller's
+        # constraint objects are left as they were
+        spec["faults"] = [{"target": "con", "j": 0, "comp": None,
+                           "val": str(rng.choice(["raise", "raise_stop"])),
+                           "when": {"idx": [0] if rng.random() < 0.7
+                                    else [int(rng.integers(0, 6))]}}]
     viols = []
     counts = {}
     # (c) module state around the first run
@@ -377,6 +385,7 @@ def run_nested(case):
 
     taps.install()
     viols = []
+    s0 = sanit.module_state()
     x0 = rng.uniform(-1, 1, n)
     opts = {"maxfev": int(rng.integers(12, 30))}
     with warnings.catch_warnings():
@@ -400,6 +409,17 @@ def run_nested(case):
                        "an objective that calls minimize gives a different "
                        "outer run than the same inner solves precomputed",
                        mechanism="nested:outer"))
+    # the nested runs leave the process as they found it (module state of
+    # cobyqa, numpy's floating-point error handling and print options)
+    s1 = sanit.module_state()
+    changed = [k for k in s1 if s0.get(k) != s1[k]] + \
+        [k for k in s0 if k not in s1]
+    if changed:
+        viols.append(V("module_state_changed",
+                       f"process / module state changed across nested "
+                       f"calls: {changed[:4]}", mechanism="module_state",
+                       keys=[list(k) if isinstance(k, tuple) else k
+                             for k in changed[:6]]))
     # every inner solve must equal the same solve run standalone
     bad = 0
     for key, fval, xb, nf in inner_log[:6]:
